@@ -53,6 +53,9 @@ Definition sFbId (t : fbtypeid) : string :=
 Definition run_conv (x : N) : list string :=
   [ line "tt" (sTagType (tagtype_of_u32 x));
     line "tt_back" (sN (u32_of_tagtype (tagtype_of_u32 x)));
+    line "tt_val" (sN (tagtype_val (tagtype_of_u32 x)));
+    line "id_new" (sN (u32_of_id (id_new x)));
+    line "id_dbg" (sTagType (tagtype_of_id (id_new x)));
     line "id_back" (sN (u32_of_id (id_of_u32 x)));
     line "tt_via_id" (sTagType (tagtype_of_id (id_of_u32 x)));
     line "id_via_tt" (sN (u32_of_id (id_of_tagtype (tagtype_of_u32 x))));
@@ -63,7 +66,9 @@ Definition run_conv (x : N) : list string :=
    right, each in the representation the impl demands) and the two for areas *)
 Definition run_conveq (x y : N) : list string :=
   [ line "eq"
-      ("ty_id=" ++ sBool (eq_type_id (tagtype_of_u32 x) (id_of_u32 y))
+      ("ty_ty=" ++ sBool (tagtype_eqb (tagtype_of_u32 x) (tagtype_of_u32 y))
+       ++ " id_id=" ++ sBool (N.eqb (u32_of_id (id_of_u32 x)) (u32_of_id (id_of_u32 y)))
+       ++ " ty_id=" ++ sBool (eq_type_id (tagtype_of_u32 x) (id_of_u32 y))
        ++ " id_ty=" ++ sBool (eq_id_type (id_of_u32 x) (tagtype_of_u32 y))
        ++ " id_u32=" ++ sBool (eq_id_u32 (id_of_u32 x) y)
        ++ " u32_id=" ++ sBool (eq_u32_id x (id_of_u32 y))
